@@ -463,5 +463,28 @@ func ruleR13_3(w *World, r *Report) {
 		rws, rss, rts := d.calls("ResetWired"), d.calls("ResetSnapshot"), d.calls("ResetTransaction")
 		good := len(rws) == 1 && len(rss) == 1 && len(rts) == 1 && d.dominates(rws[0], rts[0]) && d.dominates(rss[0], rts[0])
 		r.Check(good, "checkOptionAndError/subscribe reset order", u.Pos(co.Pos()), "ResetWired and ResetSnapshot before ResetTransaction", "the rollback point (ResetTransaction) is captured before the wire state and the snapshot have been reset: a later rollback restores the pre-subscription sequence number")
+		// the reset (and the checkpoint rewind that goes with it) only happens to a replica that is still
+		// waiting for its subscription: a duplicated or delayed subscribe response must not wipe a subscribed one (F26)
+		ab := rewriter(`\$0\.TransactionDatatype\.BaseDatatype\.state`, "STATE")
+		var resets []dins
+		resets = append(resets, rws...)
+		resets = append(resets, rss...)
+		resets = append(resets, d.stores(".checkPoint.Sseq")...)
+		resets = append(resets, d.stores(".checkPoint.Cseq")...)
+		waiting := len(resets) >= 4
+		var bad string
+		for _, x := range resets {
+			ps, ok := d.paths(x, ab)
+			if !ok || len(ps) == 0 {
+				waiting, bad = false, "undecided path condition"
+				continue
+			}
+			for _, p := range ps {
+				if !has(p.lins, "+STATE-1 == 0") && !has(p.lins, "+STATE-2 == 0") {
+					waiting, bad = false, fmt.Sprintf("%v", p.lins)
+				}
+			}
+		}
+		r.Check(waiting, "checkOptionAndError/subscribe reset only while waiting", u.Pos(co.Pos()), "state is DUE_TO_SUBSCRIBE or DUE_TO_SUBSCRIBE_CREATE on every path to the reset", "a response carrying the subscribe bit resets the wire state, the snapshot or the checkpoint of a replica that is not waiting for its subscription (path: "+bad+"): a duplicated or delayed subscribe response wipes a subscribed replica and the operations it has not pushed yet")
 	}
 }
